@@ -134,6 +134,10 @@ func callArgsRaw(c *ssa.CallCommon) []ssa.Value {
 	if c.IsInvoke() {
 		return append([]ssa.Value{c.Value}, c.Args...)
 	}
+	if f, ok := c.Value.(*ssa.Function); ok && recvDropped[f] {
+		// the recorded method had a receiver first: keep the recorded argument positions
+		return append([]ssa.Value{ssa.NewConst(nil, types.Typ[types.UntypedNil])}, c.Args...)
+	}
 	if mc, ok := c.Value.(*ssa.MakeClosure); ok {
 		// bound method closure: bindings are the receiver
 		if f, ok := mc.Fn.(*ssa.Function); ok && strings.HasSuffix(f.Name(), "$bound") {
